@@ -67,6 +67,8 @@ class Family:
         return complex(obj.correlation_2d_integral(0.1 * (1 + a % 2), 0.1 * (a // 2), shape="square" if a >= 2 else "upper-triangle", epsrel=1e-8))
 
     def call(self, obj, a):
+        if isinstance(obj, BathBox):
+            obj = obj.bath.correlations          # a Bath answers through the handle it gives out
         v = self._ask(obj, a)
         if a not in self.ref:
             self.ref[a] = {q: self._ask(self.new(q), a) for q in range(1, self.nversions() + 1)}
@@ -76,9 +78,20 @@ class Family:
         return hits[0] if len(hits) == 1 else -1
 
     def copy(self, obj, how):
+        if isinstance(obj, BathBox):
+            return obj.bath.correlations         # the handle a Bath gives out is a copy of what the Bath holds
         if how == 0:
             return copy.copy(obj)
+        if how == 2:
+            return BathBox(oqupy.Bath(SZ, obj))  # the Bath itself (it holds a copy), kept for later questions
         return oqupy.Bath(SZ, obj).correlations
+
+
+class BathBox:
+    """a Bath kept as an object of the sequence: Call = ask through bath.correlations, Copy = bath.correlations"""
+
+    def __init__(self, bath):
+        self.bath = bath
 
 
 def layouts(a):
@@ -103,18 +116,22 @@ def run(chk):
     # ---- (a) operation sequences on shared correlations objects ------------------------------
     n_seq = 240 if thorough else 72
     fams = [Family(n) for n in list(Family.ATTR) + ["CustomSD.j_function", "CustomCorrelations.function"]]
-    for it in range(n_seq + 2 * len(fams)):
-        fam = rng.choice(fams) if it >= 2 * len(fams) else fams[it // 2]
+    for it in range(n_seq + 3 * len(fams)):
+        fam = rng.choice(fams) if it >= 3 * len(fams) else fams[it // 3]
         objs, ops, got = [], [], []
         # the first two sequences of every family follow the stale-answer pattern: ask, change the parameter, ask the
         # SAME question again (on the object, on a copy made before / after the change); the others are random
         script = None
-        if it < 2 * len(fams):
+        if it < 3 * len(fams):
             a0, p0 = rng.randint(0, 3), rng.randint(1, fam.nversions())
             p1 = rng.choice([q for q in range(1, fam.nversions() + 1) if q != p0])
-            script = [("new", p0), ("call", 0, a0), ("copy", 0), ("set", 0, p1), ("call", 0, a0), ("call", 1, a0), ("copy", 0), ("call", 2, a0),
-                      ("set", 1, p1), ("call", 1, a0)] if it % 2 == 0 else \
-                     [("new", p0), ("new", p1), ("call", 0, a0), ("call", 1, a0), ("set", 0, p1), ("set", 1, p0), ("call", 0, a0), ("call", 1, a0)]
+            script = [[("new", p0), ("call", 0, a0), ("copy", 0), ("set", 0, p1), ("call", 0, a0), ("call", 1, a0), ("copy", 0), ("call", 2, a0),
+                       ("set", 1, p1), ("call", 1, a0)],
+                      [("new", p0), ("new", p1), ("call", 0, a0), ("call", 1, a0), ("set", 0, p1), ("set", 1, p0), ("call", 0, a0), ("call", 1, a0)],
+                      # a Bath kept as object 1: the handle it gives out (object 2) is changed; the Bath, a second handle and the
+                      # original are unaffected
+                      [("new", p0), ("copy", 0, 2), ("copy", 1), ("set", 2, p1), ("call", 1, a0), ("copy", 1), ("call", 3, a0), ("call", 2, a0),
+                       ("call", 0, a0), ("set", 0, p1), ("call", 1, a0)]][it % 3]
         for k in range(len(script) if script else rng.randint(3, 8)):
             kind = rng.choice(["new", "set", "call", "call", "call", "copy"]) if objs else "new"
             if script:
@@ -130,7 +147,7 @@ def run(chk):
                     got.append((len(ops), fam.call(objs[st[1]], st[2])))
                     ops.append(f"Call nat {st[1]} {st[2]}")
                 else:
-                    objs.append(fam.copy(objs[st[1]], k % 2))
+                    objs.append(fam.copy(objs[st[1]], st[2] if len(st) > 2 else k % 2))
                     ops.append(f"Copy nat {st[1]}")
                 continue
             if kind == "new":
@@ -138,7 +155,8 @@ def run(chk):
                 objs.append(fam.new(p))
                 ops.append(f"New nat {p}")
             elif kind == "set":
-                i, p = rng.randrange(len(objs)), rng.randint(1, fam.nversions())
+                cand = [j for j, o_ in enumerate(objs) if not isinstance(o_, BathBox)]
+                i, p = rng.choice(cand), rng.randint(1, fam.nversions())
                 fam.set(objs[i], p)
                 ops.append(f"Set_ nat {i} {p}")
             elif kind == "call":
@@ -147,7 +165,7 @@ def run(chk):
                 ops.append(f"Call nat {i} {a}")
             else:
                 i = rng.randrange(len(objs))
-                objs.append(fam.copy(objs[i], rng.randint(0, 1)))
+                objs.append(fam.copy(objs[i], rng.randint(0, 2)))
                 ops.append(f"Copy nat {i}")
         exp = [0] * len(ops)
         for pos, v in got:
